@@ -669,7 +669,7 @@ fn run_traj(g: &mut SplitMix64, thorough: bool) {
         free_case(&mut q, &h);
     }
     // constant diagonal tables (family 6): random systems, then every fixed system (families 7..10) with
-    // (beta, heat bath, loop updates) = CONSTDIAG_RUNS; 40 checked timesteps each from the empty string
+    // (beta, heat bath, loop updates) = CONSTDIAG_RUNS; CONSTDIAG_STEPS checked timesteps each from the empty string
     let n6 = if thorough { 300 } else { 16 };
     for s in 0..n6 + 4 * CONSTDIAG_RUNS.len() {
         let fixed = s.checked_sub(n6).map(|i| (7 + i / CONSTDIAG_RUNS.len(), CONSTDIAG_RUNS[i % CONSTDIAG_RUNS.len()]));
@@ -684,7 +684,7 @@ fn run_traj(g: &mut SplitMix64, thorough: bool) {
         stat(&format!("family_{}", fixed.map(|f| f.0).unwrap_or(6)), 1);
         stat(if hb { "heatbath_on" } else { "heatbath_off" }, 1);
         stat(if want_gate { "constdiag_gate_open" } else { "constdiag_gate_closed" }, 1);
-        for step in 0..40 {
+        for step in 0..CONSTDIAG_STEPS {
             if step % 3 == 0 {
                 pipe_case(&q, beta, do_loop, &calls_tok);
             }
@@ -698,6 +698,7 @@ fn run_traj(g: &mut SplitMix64, thorough: bool) {
 /// (beta, heat bath, loop updates) of the runs of each fixed constant-diagonal-table system (distinct betas: the
 /// `clustercheck` input names the system, beta and step)
 const CONSTDIAG_RUNS: [(f64, bool, bool); 4] = [(1.0, false, true), (2.0, true, false), (0.5, true, true), (3.0, false, false)];
+const CONSTDIAG_STEPS: usize = 40;
 
 /// One `timestep` of the real sampler in its public parts (diagonal; [loop]; [cluster]; free refresh, the optional
 /// parts exactly when `should_do_*` says so), the configuration checked with `legal_with_flags` after the diagonal
@@ -740,7 +741,8 @@ fn checked_step(q: &mut Q, h: &Handle, beta: f64, calls_tok: &str, step: usize, 
             Err(p) => fails.push(format!("cluster_update panicked: {}", p)),
             Ok(Err(e)) => fails.push(format!("cluster_update refused: {}", e)),
             Ok(Ok(())) => {
-                if let Err(e) = legal_with_flags(q) {
+                // (a wrong flag seen after the diagonal update is not reported twice)
+                if let Err(e) = if fails.is_empty() { legal_with_flags(q) } else { legal_and_consistent(q) } {
                     fails.push(format!("after the cluster update: {}", e));
                 }
             }
@@ -749,6 +751,29 @@ fn checked_step(q: &mut Q, h: &Handle, beta: f64, calls_tok: &str, step: usize, 
         fails.push("should_do_cluster_update() = false although all accepted terms are flip-symmetric and a constant full single-site matrix is among them".into());
     }
     let ok = fails.is_empty();
+    if !ok && legal_and_consistent(q).is_ok() {
+        // wrong flags / gate but still a legal configuration: follow the run (plain sub-updates, no cases) to the
+        // first illegal configuration, if any, and name it in the same verdict
+        for later in step + 1..CONSTDIAG_STEPS {
+            let r = catch(|| {
+                q.flip_free_bits();
+                q.diagonal_update(beta);
+                if q.should_do_loop_update() {
+                    q.loop_update();
+                }
+                if q.should_do_cluster_update() {
+                    let _ = q.cluster_update();
+                }
+            });
+            match r.and_then(|_| legal_and_consistent(q)) {
+                Ok(()) => {}
+                Err(e) => {
+                    fails.push(format!("consequence in step {}: {}", later, e));
+                    break;
+                }
+            }
+        }
+    }
     emit(true, &input, "-", Some(if ok { Ok(()) } else { Err(fails.join("; ")) }));
     if ok {
         free_case(q, h);
@@ -821,6 +846,12 @@ fn gate_case(g: &mut SplitMix64, nvars: usize, calls: &[Call], do_loop: bool) {
             "bond {} ({}): is_constant() = {} but a constant operator is a FULL matrix with all entries equal: expected {}",
             b, show_calls(std::slice::from_ref(accepted[b])), cb[b], want_constant(accepted[b])
         ));
+        if q.should_do_cluster_update() != (all_sym && has_const1) {
+            oracle = oracle.map_err(|m: String| format!(
+                "{}; should_do_cluster_update() = {} but all-symmetric = {}, constant single-site term = {}",
+                m, q.should_do_cluster_update(), all_sym, has_const1
+            ));
+        }
     } else if q.should_do_cluster_update() != (all_sym && has_const1) {
         oracle = Err(format!(
             "should_do_cluster_update() = {} but all-symmetric = {}, constant single-site term = {}",
